@@ -22,7 +22,7 @@ class C15(Check):
     RULE = ('seeded random formulas (incl. unless / unless[a,b]) rendered in >= 8 spellings each: keyword aliases, "," / ":" separators, minimal, full and '
             'redundant parenthesisation, random white space and comments, omitted final ";" or assertion head, and the LTL front end for untimed formulas; '
             'every spelling must parse (model and implementation) to the AST of the formula (grouping by the precedence table read from StlParser.py), and '
-            'all spellings must evaluate to the same offline signal, equal to rho of the desugared formula; non-trivial = >= 2 binary/prefix operators; '
+            'all spellings must evaluate to the same offline signal, equal to rho of the desugared formula; a precedence sweep over ordered pairs of binary operators (logical/temporal and arithmetic, grouped left and right); non-trivial = >= 2 binary/prefix operators; '
             'distinct by (formula, spellings)')
 
     def gen_cases(self, rng, tier):
@@ -40,6 +40,21 @@ class C15(Check):
                 ('alw', ('and', P, Q)), ('and', ('alw', P), Q), ('xor', ('iff', P, Q), P), ('iff', P, ('xor', Q, P)), ('not', ('not', ('alwt', 0, 1, P))),
                 ('evt', 0, 1, ('evt', 1, 2, P)), ('prev', ('next', P)), ('sprev', ('snext', ('once', P)))]
         items = [(f, 2) for f in base]
+        # precedence sweep: every ordered pair of binary operators, grouped to the left and to the right; the minimal spelling (no
+        # parentheses where the precedence table needs none) reaches the STL front end and, when untimed, the LTL front end
+        R = ('pred', 'geq', ('var', 2), ('const', 0))
+        logic = ['and', 'or', 'implies', 'iff', 'xor', 'until', 'since', 'unless']
+        pairs = [(o1, o2) for o1 in logic for o2 in logic]
+        for (o1, o2) in pairs:
+            items.append(((o1, P, (o2, Q, R)), 3))
+            items.append(((o1, (o2, P, Q), R), 3))
+        arith = ['add', 'sub', 'mul', 'div']
+        for o1 in arith:
+            for o2 in arith:
+                if tier != 'quick' or rng.random() < 0.4:
+                    # constant divisors only (5 o 2 is never 0): a division by zero is outside the property
+                    items.append((('pred', 'geq', ('a2', o1, ('var', 0), ('a2', o2, ('const', 5), ('const', 2))), ('var', 1)), 2))
+                    items.append((('pred', 'geq', ('a2', o1, ('a2', o2, ('var', 0), ('const', 5)), ('const', 2)), ('var', 1)), 2))
         for i in range(nrand):
             nv = rng.choice([1, 2, 2, 3])
             g = fml.Gen(rng, nvars=nv, maxb=2, fancy_arith=False, raw_leaf=0.05)
